@@ -1253,7 +1253,7 @@ func (c *Ctx) c6Scene(level int, big int) *c6Scene {
 		}
 	}
 	if level >= 2 {
-		nt := c.Rng.Intn(4)
+		nt := c.Rng.Intn(5)
 		for i := 0; i < nt; i++ {
 			t := c.c6Tex()
 			if i > 0 && c.Rng.Intn(3) == 0 { // equal-by-value duplicate texture (own pointer)
@@ -1271,6 +1271,36 @@ func (c *Ctx) c6Scene(level int, big int) *c6Scene {
 					t.sampler = &cp
 				}
 				c.Note("tex.value-duplicate")
+			}
+			if i > 0 && c.Rng.Intn(3) == 0 { // near-duplicate texture: exactly one field differs, so it must NOT be merged
+				p := s.texs[c.Rng.Intn(i)]
+				t = c6Tex{uri: p.uri, xf: p.xf, req: p.req}
+				smp := gltf.Sampler{MagFilter: gltf.SamplerMagFilter_NEAREST, MinFilter: gltf.SamplerMinFilter_NEAREST, WrapS: gltf.SamplerWrap_REPEAT, WrapT: gltf.SamplerWrap_REPEAT}
+				if p.sampler != nil {
+					smp = *p.sampler
+				}
+				switch c.Rng.Intn(5) {
+				case 0:
+					if smp.WrapS == gltf.SamplerWrap_REPEAT {
+						smp.WrapS = gltf.SamplerWrap_CLAMP_TO_EDGE
+					} else {
+						smp.WrapS = gltf.SamplerWrap_REPEAT
+					}
+				case 1:
+					smp.WrapT = gltf.SamplerWrap_MIRRORED_REPEAT
+				case 2:
+					if smp.MagFilter == gltf.SamplerMagFilter_NEAREST {
+						smp.MagFilter = gltf.SamplerMagFilter_LINEAR
+					} else {
+						smp.MagFilter = gltf.SamplerMagFilter_NEAREST
+					}
+				case 3:
+					smp.MinFilter = gltf.SamplerMinFilter_LINEAR
+				default:
+					t.uri = p.uri + "2"
+				}
+				t.sampler = &smp
+				c.Note("tex.near-duplicate")
 			}
 			s.texs = append(s.texs, t)
 		}
@@ -1516,6 +1546,70 @@ func c6XfWitness() *c6Scene {
 	return s
 }
 
+// texture / image / sampler dedup stress: one base texture, variants that differ from it in exactly one field (and one
+// exact value duplicate), each referenced by its own material on its own visible model
+func (c *Ctx) c6TexStress() *c6Scene {
+	s := c6Witness()
+	base := c.c6Tex()
+	if base.sampler == nil {
+		base.sampler = &gltf.Sampler{MagFilter: gltf.SamplerMagFilter_LINEAR, MinFilter: gltf.SamplerMinFilter_NEAREST, WrapS: gltf.SamplerWrap_REPEAT, WrapT: gltf.SamplerWrap_REPEAT}
+	}
+	s.texs = []c6Tex{base}
+	for v := 0; v < 7; v++ {
+		if c.Rng.Intn(3) == 0 {
+			continue
+		}
+		smp := *base.sampler
+		t := c6Tex{uri: base.uri, xf: base.xf, req: base.req, sampler: &smp}
+		switch v {
+		case 0:
+			if smp.WrapS == gltf.SamplerWrap_REPEAT {
+				smp.WrapS = gltf.SamplerWrap_CLAMP_TO_EDGE
+			} else {
+				smp.WrapS = gltf.SamplerWrap_REPEAT
+			}
+		case 1:
+			smp.WrapT = gltf.SamplerWrap_MIRRORED_REPEAT
+		case 2:
+			if smp.MagFilter == gltf.SamplerMagFilter_NEAREST {
+				smp.MagFilter = gltf.SamplerMagFilter_LINEAR
+			} else {
+				smp.MagFilter = gltf.SamplerMagFilter_NEAREST
+			}
+		case 3:
+			if smp.MinFilter == gltf.SamplerMinFilter_NEAREST {
+				smp.MinFilter = gltf.SamplerMinFilter_LINEAR_MIPMAP_LINEAR
+			} else {
+				smp.MinFilter = gltf.SamplerMinFilter_NEAREST
+			}
+		case 4:
+			t.uri = base.uri + ".alt"
+		case 5:
+			t.sampler = nil
+		default: // exact value duplicate under its own pointers
+		}
+		s.texs = append(s.texs, t)
+	}
+	s.build()
+	s.models = nil
+	order := c.Rng.Perm(len(s.texs))
+	for k, ti := range order {
+		m := c6Mat{name: "m", hasPbr: true, bct: ti, mrt: -1, normal: -1, occl: -1}
+		switch c.Rng.Intn(4) {
+		case 0:
+			m.bct, m.mrt = -1, ti
+		case 1:
+			m.bct, m.normal = -1, ti
+		case 2:
+			m.bct, m.occl = -1, ti
+		}
+		s.mats = append(s.mats, m)
+		s.models = append(s.models, c6Model{name: "t" + strconv.Itoa(k), mesh: k % 2, mat: k})
+	}
+	c.Note("scene.texture-stress")
+	return s
+}
+
 func runC06(c *Ctx) {
 	// fixed cases first
 	c.c6Case(c6Witness(), true, "witness")
@@ -1554,6 +1648,9 @@ func runC06(c *Ctx) {
 			level = 1
 		}
 		s := c.c6Scene(level, 0)
+		if k%10 == 7 {
+			s = c.c6TexStress()
+		}
 		c.c6Case(s, k%2 == 0, "")
 	}
 	// both sides of the uint16/uint32 threshold (thorough tier; one pair in the quick tier)
